@@ -8,6 +8,7 @@ import M4riProofs.W.RowCol
 import M4riProofs.W.Perm
 import M4riProofs.GenTieMem
 import M4riProofs.GenTieAlg
+import M4riProofs.GenTieTab
 namespace M4ri.Props.C13
 open M4ri M4ri.Mzd
 
@@ -153,5 +154,10 @@ example : exM.WF ∧ (∀ k, k < min (#[1, 1] : Array Nat).size exM.nrows → (#
 /-! ### tie to the C text (generated by vlib/ctrans.py on every check, proved equal to the model in GenTieAlg.lean) -/
 #check @M4ri.GenTieAlg.mzdRowSwap0_eq
 #check @M4ri.GenTieAlg.mzdRowAdd_eq
+
+
+/-! ### tie to the C text (generated by vlib/ctrans.py on every check, proved equal to the model in GenTieTab.lean) -/
+#check @M4ri.GenTieTab.mzdApplyPLeft_eq
+#check @M4ri.GenTieTab.mzdApplyPLeftTrans_eq
 
 end M4ri.Props.C13
